@@ -49,8 +49,10 @@ def main():
         run = "^(" + "|".join(tests) + ")$"
         dst = os.path.join(wt, pdir, "zz_seed_%s_demo_test.go" % which.lower())
         shutil.copy(demo, dst)
+        # private network namespace: other sessions' test processes hold the suite's fixed ports
+        ns = lambda x: "unshare -n sh -c 'ip link set lo up; %s'" % x.replace("'", "'\\''")
         cmd = "go test -vet=off -count=1 -timeout 300s -run '%s' ./%s" % (run, pdir)
-        rc, o = sh(cmd, cwd=wt)
+        rc, o = sh(ns(cmd), cwd=wt)
         meta["ran"].append({"cmd": cmd + "   # clean tree", "rc": rc, "tail": o[-300:]})
         meta["demo_passes_without"] = rc == 0
         rc, o = sh("git apply %s" % patch, cwd=wt)
@@ -62,7 +64,7 @@ def main():
         rc, o = sh("go build ./... && go vet " + " ".join("./" + t for t in touched), cwd=wt)
         meta["builds_and_vets"] = rc == 0
         meta["ran"].append({"cmd": "go build ./... && go vet <touched>", "rc": rc, "tail": o[-300:]})
-        rc, o = sh(cmd, cwd=wt)
+        rc, o = sh(ns(cmd), cwd=wt)
         meta["demo_fails_with"] = rc != 0
         meta["ran"].append({"cmd": cmd + "   # with the change", "rc": rc, "tail": o[-600:]})
         os.remove(dst)
